@@ -1,5 +1,33 @@
 import IndicatorVerif.Model.Registry
-/- C09 — theorems under construction -/
+import IndicatorVerif.Model.Strategies
+/-
+  C09 — an instance is its configuration.
+
+  In the model an indicator or strategy *is* a function of its configuration `(name, ns, fs)`: the
+  registry returns a closed term, and running it is `Sig.evalL` on the inputs.  There is no instance
+  state to carry from one call to the next, so "any history of calls on one instance equals the calls
+  on fresh instances" holds by construction; the theorems below state it so that the claim is visible
+  and audited.  The content of C09 is therefore the *tie*: the correspondence check calls ONE Go
+  instance repeatedly and concurrently (race detector on) and compares every result with this
+  function.  Data races are a property of Go memory accesses that no model of this kind can exhibit.
+-/
 namespace C09
-theorem placeholder_true : True := trivial
+open Sig
+
+variable {α : Type} [Arith α]
+
+/-- a history of calls on one "instance" of the model: each call is evaluated on its own input only -/
+def callsOn (e : List (Sig α)) (inputs : List (List (List α))) : List (List (List α)) :=
+  inputs.map (fun env => e.map (evalL env))
+
+/-- **Reuse = fresh instances**: the result of the k-th call in any history is the result of that call alone -/
+theorem reuse_is_fresh (e : List (Sig α)) (inputs : List (List (List α))) (k : Nat) (hk : k < inputs.length) :
+    (callsOn e inputs)[k]? = some (e.map (evalL (inputs[k]))) := by
+  simp [callsOn, hk]
+
+/-- the order of the calls (and hence any interleaving of concurrent calls) does not matter: a permuted history
+    gives the permuted results -/
+theorem calls_perm (e : List (Sig α)) (i1 i2 : List (List (List α))) (h : i1.Perm i2) :
+    (callsOn e i1).Perm (callsOn e i2) := h.map _
+
 end C09
